@@ -32,7 +32,10 @@ META = {
 @st.composite
 def cases(draw, tier):
   mspec = draw(G.model_specs(max_nodes=8 if tier == 'thorough' else 6, max_subgraphs=2,
-                             reuse_const=True, ops=G.ALL_OPS + ['GATE']))   # GATE: a BOOL tensor
+                             reuse_const=True, ops=G.ALL_OPS + ['GATE'],   # GATE: a BOOL tensor
+                             # degenerate constants (tiny / huge / zero tensors): bias codes
+                             # beyond 32 bits, parameters at the ends of their ranges
+                             wild_consts=draw(st.booleans())))
   names = engine.op_out_names(mspec)
   if draw(st.integers(0, 2)) == 0:
     recipe = {'kind': 'shipped', 'name': draw(st.sampled_from(engine.SHIPPED_NAMES))}
